@@ -119,3 +119,12 @@ check("C14", "exploration",
       "known_findings.json and printed as KNOWN-FINDING.", TRUST,
       "deterministic simulation: seeded scheduler + depth-1 pre-emption sweep (close() at every line), fault endings in virtual time, per-run invariant oracle",
       "DESIGN.md section 6 C14")
+check("C16", "exploration",
+      "Keepalive grid (ping_interval x ping_timeout, accepted and refused pairs) against peers with scripted pong latency "
+      "patterns (responsive: always < 0.9 t; silent: stops after the k-th ping) and concurrent data traffic timed to collide "
+      "with ping and timeout instants, in virtual time under seeded schedules of the ping thread vs the loop. Oracle from "
+      "the peer's log and the callback trace: payload, cadence, first ping <= 2 i, no ping after the end, detection <= "
+      "P + 2 t for silent peers, never for responsive ones, refusal before any network activity. One known finding "
+      "(interval <= 2*timeout) is listed.", TRUST + " Every timed wait overshoots its deadline by one tick (scheduling latency model).",
+      "deterministic simulation: virtual-time grid with silent/slow peer faults and colliding traffic under a seeded two-thread scheduler, bound oracle",
+      "DESIGN.md section 6 C16")
